@@ -938,7 +938,7 @@ class SigmaCIDRExpression(NoPlainConversionMixin, SigmaType):
                 last_addr = str(subnet_v6.broadcast_address)
                 wildcard_required = False  # There's the possibility that no wildcard is required at all if the prefix is /128 (e.g. localhost)
                 for i in range(
-                    len(first_addr)
+                    min(len(first_addr), len(last_addr))
                 ):  # Determine the first char that differs between the first and last network address of the network. This is the location where the wildcard has to be placed.
                     if first_addr[i] != last_addr[i]:
                         wildcard_required = True
